@@ -3,7 +3,7 @@ package main
 func init() { register("C06", checkC06) }
 
 func checkC06(r *Run) {
-	r.Explain = "Decides the ownership discipline that makes the concurrent claim true: A3 exactly one invocation site on the event's writer field, executed at most once per write(), reached exactly once by every finaliser (one Write per event), and the single terminator site; A13 pool typestate over every sync.Pool user of the module (root package, diode): no access to an object after the put-effect that returns it to its pool (so the buffer handed to the writer is not touched until Write has returned and is not shared with the next Get), no second put on any path, and consumers of pooled objects return them; A14 shared counters and switches (global level, sampling switch, sampler counters, window end) are accessed only through sync/atomic; A15a syncWriter and TriggerLevelWriter touch their guarded fields and call the wrapped writer only with their mutex held (a writer wrapped in SyncWriter never sees two overlapping calls). A13b also recognises a deferred put of an object that the put variable was assigned from; A13d: a pooled *bytes.Buffer is emptied on every path before it returns to its pool (or right after every Get). COPY judges every publication site of Write; POOLBOUND the size guards of the module's pools keep exactly the same capacities (cap <= 64KiB), so producer and consumer of a hand-over agree on who owns a boundary-sized buffer; A13 follows a loop-carried scratch object across iterations. STATELESS encoders (no package-level state written while encoding); TLW-PATH/TLW-FRAME (shared with C04/C15): a held event reaches the destination as the one intact Write it was."
+	r.Explain = "Decides the ownership discipline that makes the concurrent claim true: A3 exactly one invocation site on the event's writer field, executed at most once per write(), reached exactly once by every finaliser (one Write per event), and the single terminator site; A13 pool typestate over every sync.Pool user of the module (root package, diode): no access to an object after the put-effect that returns it to its pool (so the buffer handed to the writer is not touched until Write has returned and is not shared with the next Get), no second put on any path, and consumers of pooled objects return them; A14 shared counters and switches (global level, sampling switch, sampler counters, window end) are accessed only through sync/atomic; A15a syncWriter and TriggerLevelWriter touch their guarded fields and call the wrapped writer only with their mutex held (a writer wrapped in SyncWriter never sees two overlapping calls). A13b also recognises a deferred put of an object that the put variable was assigned from; A13d: a pooled *bytes.Buffer is emptied on every path before it returns to its pool (or right after every Get). COPY judges every publication site of Write; POOLBOUND the size guards of the module's pools keep exactly the same capacities (cap <= 64KiB), so producer and consumer of a hand-over agree on who owns a boundary-sized buffer; A13 follows a loop-carried scratch object across iterations. STATELESS encoders (no package-level state written while encoding); TLW-PATH/TLW-FRAME (shared with C04/C15): a held event reaches the destination as the one intact Write it was. ISOL/HOOKS (C18's and C03's rules): a logger attached to a context is never overwritten in place; sibling loggers never share a hook slot."
 	r.NotDec = "General data-race freedom of arbitrary user programs and of user writers/hooks; schedules are covered only through these ownership and locking disciplines, which are necessary conditions."
 	r.Assume = []string{"sync.Pool, sync.Mutex and sync/atomic behave as documented", "user writers do not retain the slice after Write returns"}
 	p := r.Use("J")
